@@ -197,8 +197,14 @@ func (d *Dispenser) Val() string {
 }
 
 // Line gets the line number of the current token. If there is no token
-// loaded, it returns 0.
+// loaded, it returns 0; if the cursor is past the last token (which happens
+// when an import at the very end of the input expands to nothing), it
+// returns the line the input ends on, so that errors still name a line.
 func (d *Dispenser) Line() int {
+	if d.cursor >= len(d.tokens) && len(d.tokens) > 0 {
+		last := d.tokens[len(d.tokens)-1]
+		return last.Line + last.NumLineBreaks()
+	}
 	if d.cursor < 0 || d.cursor >= len(d.tokens) {
 		return 0
 	}
@@ -208,6 +214,13 @@ func (d *Dispenser) Line() int {
 // File gets the filename of the current token. If there is no token loaded,
 // it returns the filename originally given when parsing started.
 func (d *Dispenser) File() string {
+	if d.cursor >= len(d.tokens) && len(d.tokens) > 0 {
+		// past the last token: same position as reported by Line
+		if tokenFilename := d.tokens[len(d.tokens)-1].File; tokenFilename != "" {
+			return tokenFilename
+		}
+		return d.filename
+	}
 	if d.cursor < 0 || d.cursor >= len(d.tokens) {
 		return d.filename
 	}
